@@ -230,4 +230,24 @@ theorem perplexity_def (ps : List ℝ) :
     perplexityVals realOps 2 ps = (2 : ℝ) ^ entropyVals (Real.logb 2) ps :=
   perplexity_eq ps
 
+/-- **Rényi → Shannon.** For a probability vector (non-negative entries of sum 1; the sum is
+needed, since `log₂ Σ pᵃ → log₂ Σ p ≠ 0` otherwise) the Rényi entropy of order `a` tends to the
+Shannon entropy as `a → 1`, `a ≠ 1`: the order-1 branch of `renyiVals` is the genuine limit. -/
+theorem renyi_tendsto_one (ps : List ℝ) (hnn : ∀ p ∈ ps, 0 ≤ p) (hs : ps.sum = 1) :
+    Filter.Tendsto (fun a => renyiVals realOps (.fin a) ps) (nhdsWithin 1 {1}ᶜ)
+      (nhds (entropyVals (Real.logb 2) ps)) :=
+  Lemmas.InfoReal.renyi_tendsto_one ps hnn hs
+
+/-- **Tsallis → Shannon (nats).** For a probability vector the Tsallis entropy of order `q` tends
+to its order-1 value `−Σ p ln p` as `q → 1`, `q ≠ 1`. -/
+theorem tsallis_tendsto_one (ps : List ℝ) (hnn : ∀ p ∈ ps, 0 ≤ p) (hs : ps.sum = 1) :
+    Filter.Tendsto (fun q => tsallisVals realOps q ps) (nhdsWithin 1 {1}ᶜ)
+      (nhds (tsallisVals realOps 1 ps)) :=
+  Lemmas.InfoReal.tsallis_tendsto_one ps hnn hs
+
+example : (∀ p ∈ [(1 : ℝ) / 4, 0, 3 / 4], 0 ≤ p) ∧ ([(1 : ℝ) / 4, 0, 3 / 4]).sum = 1 := by
+  constructor
+  · intro p hp; simp at hp; rcases hp with rfl | rfl | rfl <;> norm_num
+  · norm_num
+
 end Dit.Props.C04
